@@ -43,7 +43,9 @@ def cases(draw, tier):
     return {"kind": kind, "n": n, "alg": alg, "k": k, "which": which, "fn": fn, "seed": draw(st.integers(0, 10**6)),
             "cplx": draw(st.booleans()), "cap": draw(st.sampled_from(["n", "n", "n+3"])), "declare": draw(st.booleans()),
             # Krylov tolerance (0 = never stop early) and an eigenvalue that is exactly zero or 1e-9 of the others
-            "ktol0": draw(st.integers(1, 4)) == 1, "tiny": draw(st.sampled_from([None, None, None, 0.0, 1e-9]))}
+            "ktol0": draw(st.integers(1, 4)) == 1, "tiny": draw(st.sampled_from([None, None, None, 0.0, 1e-9])),
+            # the algorithm object is first used on a smaller operator; an explicit start vector of another dtype / precision
+            "warm_small": draw(st.integers(1, 4)) == 1, "start": draw(st.sampled_from([None, None, None, "same", "c64", "f32"]))}
 
 
 def strategy(tier):
@@ -122,8 +124,13 @@ def make_alg(case, n):
     L = cola.linalg
     cap = n if case["cap"] == "n" else n + 3
     kt = 0.0 if case.get("ktol0") else 1e-12
-    return {"omitted": None, "Auto": L.Auto(), "Eig": L.Eig(), "Eigh": L.Eigh(), "Lanczos": L.Lanczos(max_iters=cap, tol=kt),
-            "Arnoldi": L.Arnoldi(max_iters=cap, tol=kt), "PowerIteration": L.PowerIteration(tol=1e-12, max_iter=3000)}[case["alg"]]
+    kw = {}
+    if case.get("start") and case["alg"] in ("Lanczos", "Arnoldi"):
+        rs = np.random.default_rng(case["seed"] + 11)
+        v = rs.standard_normal(n)
+        kw["start_vector"] = {"same": v, "c64": (v + 1j * rs.standard_normal(n)).astype(np.complex64), "f32": v.astype(np.float32)}[case["start"]]
+    return {"omitted": None, "Auto": L.Auto(), "Eig": L.Eig(), "Eigh": L.Eigh(), "Lanczos": L.Lanczos(max_iters=cap, tol=kt, **kw),
+            "Arnoldi": L.Arnoldi(max_iters=cap, tol=kt, **kw), "PowerIteration": L.PowerIteration(tol=1e-12, max_iter=3000)}[case["alg"]]
 
 
 def select_ok(vals, w, which, tol):
@@ -172,6 +179,16 @@ def check(case, out):
     scale = max(1.0, np.linalg.norm(M, 2))
     w = np.linalg.eigvals(M)
     extra = {} if alg is None else {"alg": alg}
+    if case.get("start") and case["alg"] in ("Lanczos", "Arnoldi"):
+        out.label("start:" + case["start"])
+    if case.get("warm_small") and alg is not None and n >= 3 and not case.get("start"):
+        # the same algorithm object was used before, on a smaller operator
+        try:
+            small = cola.SelfAdjoint(cola.ops.Dense(np.diag(np.arange(1.0, n - 1.0)) + 0.25 * np.ones((n - 2, n - 2))))
+            L.eig(small, 1, "LM", alg)
+            out.label("alg_object_reused")
+        except Exception as e:
+            out.notes.append("warm:" + oracle.exc_man(e))
     try:
         if fn == "eig":
             if case["which"] == "omitted":
@@ -202,6 +219,10 @@ def check(case, out):
     tol_pair = (1e-3 if power else 1e-6) * scale * condx
     if vals.shape[0] != k:
         out.fail("count", site, "count", f"{vals.shape[0]} values for k={k}")
+        return
+    # a double-precision operator is decomposed in double precision, whatever the precision of an explicit start vector
+    if np.dtype(A.dtype) in (np.dtype(np.float64), np.dtype(np.complex128)) and vals.dtype in (np.dtype(np.float32), np.dtype(np.complex64)):
+        out.fail("values", site, "precision_lost", f"eigenvalues returned as {vals.dtype} for a {np.dtype(A.dtype)} operator")
         return
     if not np.all(np.isfinite(vals)):
         out.fail("values", site, "nonfinite", str(vals[:4]))
